@@ -394,6 +394,27 @@ class ConsoleParallelReader(QueueReader):
         self.thread.start()
 
 
+def is_session_stream(handle):
+    """True for the session's own sys.stdin / sys.stdout / sys.stderr.
+
+    While a callable alias runs, ProcProxyThread swaps the process-global
+    ``sys.stdout`` / ``sys.stderr`` for its thread dispatcher, whose
+    ``default`` is the real stream: ``handle is sys.stderr`` alone does not
+    recognise the real stream then.
+    """
+    for s in (
+        sys.stdin,
+        sys.stdout,
+        sys.stderr,
+        sys.__stdin__,
+        sys.__stdout__,
+        sys.__stderr__,
+    ):
+        if s is not None and (handle is s or handle is getattr(s, "default", None)):
+            return True
+    return False
+
+
 def safe_fdclose(handle, cache=None):
     """Closes a file handle in the safest way possible, and potentially
     storing the result.
@@ -410,7 +431,7 @@ def safe_fdclose(handle, cache=None):
                 os.close(handle)
             except OSError:
                 status = False
-    elif handle is sys.stdin or handle is sys.stdout or handle is sys.stderr:
+    elif is_session_stream(handle):
         # don't close stdin, stdout, or stderr
         pass
     else:
